@@ -78,7 +78,9 @@ def main():
                 sigs = [l.strip() for l in out.splitlines()
                         if l.strip().startswith('signature:')]
                 res['checks'][p] = dict(
-                    tier=tier, exit=rc, detected=rc == 1,
+                    tier=tier, exit=rc,
+                    detected=rc == 1 and any(l.startswith('VIOLATION ')
+                                             for l in out.splitlines()),
                     violation_signatures=sigs[:12],
                     summary=out.splitlines()[-1][:300] if out else '')
                 # every violation is a replayable artefact: the first replay
